@@ -64,10 +64,12 @@ theorem local_entry_dir_within (dir name : Str) (hd : isRooted dir = true) (h : 
   · exact compsOf_true_plain dir c e
   · exact hp c e
 
-/-- **C11 (3)** end to end: whatever raw path segment a client sends, either the request is refused
-(malformed escape → 400; name rejected by the store → error) or the files of the entry lie inside
-the store directory.  `parseParam` covers net/http's decoding, chi's raw/decoded routing and
-ParseParam's own unescape (so doubly encoded dot segments are included). -/
+/-- C11 (3) composition with the request layer.  This is `local_path_within` / `local_entry_dir_within`
+repackaged: it holds for ANY function in place of `parseParam` (the decoded name is an arbitrary
+string and (2) covers all strings), so it adds no proof content of its own; it is stated to make
+explicit that no property of the decoding is relied upon.  What `parseParam` (net/http decoding,
+chi routing on raw or decoded path, ParseParam's unescape) actually returns, and that a rejected
+name is answered with an HTTP error, are established by the end-to-end replay, not by proof. -/
 theorem request_contained (dir seg : Str) (hd : isRooted dir = true) :
     match parseParam seg with
     | none => True
@@ -80,7 +82,9 @@ theorem request_contained (dir seg : Str) (hd : isRooted dir = true) :
     | false => exact Or.inl hok
     | true => exact Or.inr ⟨local_path_within dir name hd hok, local_entry_dir_within dir name hd hok⟩
 
-/-- two different accepted names never share a data file -/
+/-- two different accepted names never share a DATA FILE.  (Entry directories can nest: the directory of
+entry `a/b` lies inside the directory of entry `a`, so deleting `a` removes `a/b` as well; this
+theorem does not exclude that.) -/
 theorem local_path_injective (dir n1 n2 : Str) (hd : isRooted dir = true)
     (h1 : localNameOK n1 = true) (h2 : localNameOK n2 = true)
     (he : localPath dir n1 = localPath dir n2) : n1 = n2 := by
@@ -132,9 +136,9 @@ theorem old_check_accepted_dot :
 
 /-! ### content-addressed names -/
 
-theorem hex_plain (l : Str) (hne : l ≠ []) (hh : ∀ c ∈ l, isHexLower c = true) : Plain l := by
-  have hdot : isHexLower '.' = false := by decide
-  have hsl : isHexLower '/' = false := by decide
+theorem hex_plain (l : Str) (hne : l ≠ []) (hh : ∀ c ∈ l, isHex c = true) : Plain l := by
+  have hdot : isHex '.' = false := by decide
+  have hsl : isHex '/' = false := by decide
   refine ⟨⟨hne, ?_, ?_⟩, ?_⟩
   · intro e; have := hh '.' (by rw [e]; simp [dot]); rw [hdot] at this; cases this
   · intro e; have := hh '.' (by rw [e]; simp [dotdot]); rw [hdot] at this; cases this
